@@ -70,6 +70,7 @@ try_zone(const char *str, const char **ep)
 
 	switch (*sp) {
 		int32_t tmp;
+		int32_t hh;
 		const char *tp;
 		const char *up;
 	case '-':
@@ -82,7 +83,7 @@ try_zone(const char *str, const char **ep)
 			/* only accept fully zero-padded hours */
 			break;
 		}
-		res += 3600 * tmp;
+		hh = tmp;
 		/* colon separator is optional */
 		if (*tp == ':') {
 			tp++;
@@ -97,7 +98,8 @@ try_zone(const char *str, const char **ep)
 		} else {
 			tp = up;
 		}
-		res += 60 * tmp;
+		/* only now it is an offset, hours alone are left alone */
+		res = 3600 * hh + 60 * tmp;
 		/* at least we've got hours and minutes */
 		sp = tp;
 		/* again colon separator is optional */
